@@ -22,15 +22,20 @@ type vfAPIProg struct {
 	rst  *Stream // reader side (B) stream
 	key  uint64
 	n    int
+	ppi  uint32 // payload protocol identifier of the following writes (0: WebRTC binary)
 	sent []vfWriteRec
 	got  []vfReadRec
 }
 
 func (p *vfAPIProg) write(size int, wantErr bool, what string) error {
 	msg := vfMakeMsg(p.key, p.n, size)
-	rec := vfWriteRec{Idx: p.n, Size: size, PPI: 53, Hash: vfMsgHash(53, msg), Unordered: p.spec.x("unordered", 0) == 1}
+	ppi := uint32(53)
+	if p.ppi != 0 {
+		ppi = p.ppi
+	}
+	rec := vfWriteRec{Idx: p.n, Size: size, PPI: ppi, Hash: vfMsgHash(ppi, msg), Unordered: p.spec.x("unordered", 0) == 1 && ppi != 50}
 	p.n++
-	n, err := p.wst.WriteSCTP(msg, PayloadTypeWebRTCBinary)
+	n, err := p.wst.WriteSCTP(msg, PayloadProtocolIdentifier(ppi))
 	rec.Err, rec.Accepted = err, err == nil
 	p.sent = append(p.sent, rec)
 	if wantErr && err == nil {
@@ -333,6 +338,11 @@ func vfRunAPIProgram(t *testing.T, spec *vfSpec, res *vfRes) {
 				break
 			}
 			d := time.Duration(spec.x("deadline_us", 50000)) * time.Microsecond
+			if spec.x("dcep", 0) == 1 {
+				// data-channel control messages are sent ordered also on an unordered stream: the failed one must give
+				// its sequence number back all the same
+				p.ppi = uint32(PayloadTypeWebRTCDCEP)
+			}
 			_ = wst.SetWriteDeadline(time.Now().Add(d))
 			t0 := sim.net.now()
 			werr := p.write(1+r.Intn(maxMsg), true, "block-deadline")
@@ -407,6 +417,27 @@ func vfRunAPIProgram(t *testing.T, spec *vfSpec, res *vfRes) {
 				res.violate("C18", "read/deadline/error", "ReadSCTP returned %v", got.err)
 			}
 			_ = rst.SetReadDeadline(time.Time{})
+			// a deadline that was set and cleared again must not fire later: a read blocked with no deadline in force
+			// returns the next message, not a deadline error at the cancelled instant
+			if delta >= 0 && got.err == nil {
+				_ = rst.SetReadDeadline(time.Now().Add(300 * time.Millisecond))
+				_ = rst.SetReadDeadline(time.Time{})
+				rc3 := make(chan rr, 1)
+				go func() {
+					n, _, err := rst.ReadSCTP(buf)
+					rc3 <- rr{n, err, sim.net.now()}
+				}()
+				time.Sleep(900 * time.Millisecond)
+				tw := sim.net.now()
+				_ = p.write(1+r.Intn(int(a.maxPayloadSize)-1), false, "ordinary")
+				g3 := <-rc3
+				res.count("c18_read_deadlines", 1)
+				if g3.err != nil {
+					res.violate("C18", "read/deadline/cleared-fires", "a read deadline was set and cleared at once; a read blocked afterwards returned %v at %v (message written at %v)", g3.err, g3.at, tw)
+				} else {
+					p.got = append(p.got, vfReadRec{N: g3.n, PPI: 53, Hash: vfMsgHash(53, buf[:g3.n]), T: g3.at})
+				}
+			}
 			// one deadline, two reads: the first completes before the deadline, the second has to block and must
 			// still be woken at that same deadline
 			if delta >= 0 && got.err == nil {
@@ -499,6 +530,7 @@ func vfGenAPISpecs(tier string, seed uint64, race bool) []vfSpec {
 							sp.X["delta_ns"] = v
 						case "block-deadline":
 							sp.X["deadline_us"] = v
+							sp.X["dcep"] = int64(idx % 2)
 							sp.A.BlockWrite = true
 							sp.B.RecvBuf = 4096
 							sp.A.MaxMsg = 3000
